@@ -118,40 +118,30 @@ theorem init_values :
   simp only [init, h1, h2, h3, cLight]
   norm_num
 
-/-- `clean()` restores every default and deletes every custom attribute that is neither callable nor named `__…` -/
-theorem clean_restores_defaults (s : State) (h : ∀ kv ∈ s.custom, survives kv = false) : clean s = init := by
+/-- no custom attribute survives `clean()`: its keep list is exactly the ten standard attributes -/
+theorem survives_false (kv : String × Val) : survives kv = false := by
+  unfold survives
+  rw [defaults_documented.2.2.2.2.2.2.2]
+  exact Bool.and_not_self _
+
+/-- **clean() restores every default**, whatever was stored before (callable values and `__…` names included) -/
+theorem clean_restores_defaults (s : State) : clean s = init := by
   obtain ⟨h1, h2, h3, h4, h5, h6, -⟩ := defaults_documented
   have hc : s.custom.filter survives = [] := by
     rw [List.filter_eq_nil_iff]
-    intro kv hkv
-    simp [h kv hkv]
+    intro kv _
+    simp [survives_false kv]
   simp only [clean, init, hc, h1, h2, h3, h4, h5, h6]
 
-/-- FULL clause of the statement: `clean()` restores every default whatever was stored -/
-def C14_full_clean : Prop := ∀ s : State, clean s = init
+/-- FULL clause of the statement, now a theorem (it was refuted on the model of the code before the `fix:` commit that makes
+    `clean()` delete every non-standard name of `vars(self)`) -/
+theorem C14_full_clean : ∀ s : State, clean s = init := clean_restores_defaults
 
-/-- the full clause FAILS on the faithful model: a callable custom attribute (and one named `__…`) is not deleted by the
-    filter `not callable(getattr(gv, attr)) and not attr.startswith("__")` of `clean()` -/
-theorem clean_keeps_callable : ¬ C14_full_clean := by
-  intro h
-  have := congrArg State.custom (h { init with custom := [("f", .callable)] })
-  revert this
-  decide
+theorem clean_custom (s : State) : (clean s).custom = [] := by rw [clean_restores_defaults]; rfl
 
-theorem clean_custom (s : State) : (clean s).custom = s.custom.filter survives := rfl
-
-/-- after `clean()` an ordinary custom attribute is gone -/
-theorem clean_forgets (s : State) (k : String) (h : ∀ v, survives (k, v) = false) : lookup (clean s).custom k = none := by
-  unfold lookup
-  rw [clean_custom, Option.map_eq_none_iff, List.find?_eq_none]
-  intro kv hkv hk
-  rw [List.mem_filter] at hkv
-  have : kv.1 = k := by simpa using hk
-  obtain ⟨k', v'⟩ := kv
-  simp only at this
-  subst this
-  rw [h v'] at hkv
-  exact absurd hkv.2 (by simp)
+/-- after `clean()` every custom attribute is gone -/
+theorem clean_forgets (s : State) (k : String) : lookup (clean s).custom k = none := by
+  rw [clean_custom]; rfl
 
 /-! ### one call -/
 
@@ -384,25 +374,20 @@ theorem inv_history (ops : List Op) : ∀ s, Inv s → CommHist s ops → ∀ s'
 theorem inv_history_from_init (ops : List Op) (hc : CommHist init ops) (s' : State) (h : run init ops = .ok s') : Inv s' :=
   inv_history ops init inv_init hc s' h
 
-/-- a history may end with `clean()`: everything is back to the defaults (for ordinary custom attributes) -/
-theorem history_then_clean (ops : List Op) (s s' : State) (h : run s (ops ++ [.clean]) = .ok s')
-    (hs : ∀ s1, run s ops = .ok s1 → ∀ kv ∈ s1.custom, survives kv = false) : s' = init := by
+/-- a history may end with `clean()`: everything is back to the defaults, whatever the history stored -/
+theorem history_then_clean (ops : List Op) (s s' : State) (h : run s (ops ++ [.clean]) = .ok s') : s' = init := by
   induction ops generalizing s with
   | nil =>
     simp only [List.nil_append, run, step, Except.ok.injEq] at h
     subst h
-    exact clean_restores_defaults s (hs s rfl)
+    exact clean_restores_defaults s
   | cons op ops ih =>
     simp only [List.cons_append, run] at h
     cases hst : step s op with
     | error e => rw [hst] at h; simp at h
     | ok s1 =>
       rw [hst] at h
-      apply ih s1 h
-      intro s2 h2
-      apply hs s2
-      simp only [run, hst]
-      exact h2
+      exact ih s1 h
 
 /-! ### custom attributes -/
 
@@ -479,6 +464,11 @@ example : (run init [.call { sps := some 8, R := some 1000000000, N := some 10 }
                      .call { sps := some 16, R := some 1000000000 }]).map
     (fun s => (s.sps, s.N, s.t.map List.length, s.wPi.map List.length, s.dwPi)) =
     .ok (16, some 10, some 160, some 160, some 200000000) := by decide +kernel
+
+/-- a callable custom attribute and a `__…` name are stored by a call and removed by `clean()` -/
+example : (run init [.call { kw := [("shape", .callable), ("__x", .num 5)] }]).map (fun s => s.custom.length) = .ok 2 := by
+  decide +kernel
+example : run init [.call { kw := [("shape", .callable), ("__x", .num 5)] }, .clean] = .ok init := by decide +kernel
 
 /-- a non-commensurate call really breaks `fs = R·sps` (so the hypothesis of `inv_call` is needed): fs/R = 8.5 → sps = 8 -/
 example : (run init [.call { R := some 1000000000, fs := some 8500000000 }]).map (fun s => (s.sps, decide (s.fs = s.R * (s.sps : ℚ)))) =
